@@ -17,6 +17,23 @@ CFG = {
         "unparsable method / right key / method omitted; re-key along the ordered method pair (i mod 16) so that all 16 pairs occur, refused "
         "re-keys, open with the previous key and with the new key, provision over the existing store with right and wrong key, second re-key, "
         "re-key to a blank raw key, recreate, remove, open after remove. "
+        "SECOND WAVE (coverage gaps, harness/src/c08x.rs). (e) c08:cfg: one store (raw / argon2i:int / none, two profiles, two records), "
+        "closed; an out-of-band edit from a catalogue of 57 `config` edits (version 2 / missing / NULL / BLOB / '01' / '1 ' / integer 1; key row "
+        "missing / NULL / BLOB / foo:bar / kdf:scrypt / bad level / no salt / salt empty, odd, 15, 17 bytes, non-hex, overridden, in the fragment, "
+        "upper-case, alias level, extra parameters, trailing text after raw / none, another method; default_profile missing / NULL / BLOB / other / "
+        "unknown / re-inserted with a later rowid; combinations that expose the row order) or 15 file edits (0 bytes, 1 / 100 / 4096 random bytes, "
+        "the header cut at 16 / 50 / 99 / 100 / 512 / 4095 / 4096 bytes, first byte flipped, a directory, nothing, a foreign database); then `open` "
+        "or `provision(recreate = false)` — first round with the right key, later rounds with wrong method / pass / profile too; the edit is undone and "
+        "the right key must read the old content. (f) c08:opts: `SqliteStoreOptions::new` for each of the 7 recognised parameters at every valid "
+        "value and 6-11 garbage values each, mixed parameter sets, unknown / repeated / differently-cased names, from_path / in_memory / default "
+        "(read back through the derived Debug), and for the valid ones a provision / fill / reopen-with-default-options / open / remove / remove "
+        "cycle through the type's own ManageBackend impl. (g) c08:misc: generate_raw_store_key(None) and Store::new_raw_key (provision, reopen, "
+        "re-key); re-key of a handle that has a clone (then dropped, or not); profile keys damaged out of band (bit flips in nonce / ciphertext / "
+        "tag, cuts, NULL, and 18 hand-written CBOR records sealed under the RIGHT store key: 31- / 33- / 0-byte member, missing, twice, as text, "
+        "ver 2 / missing / empty / as bytes, extra member, reordered, empty map, not a map, trailing byte, cut short) on the active or on the second "
+        "profile, followed by open / session / rekey / later writes / reopen; records whose `ver` is not \"1\" but whose six members are well formed are "
+        "not judged on acceptance (no property states it; counted as obs:pk:ver-not-checked:*): accepted, every record must be readable and the re-key "
+        "lose nothing; refused, the kind must be Unsupported. "
         "non-trivial: uri cases = WF holds and (>= 1 query parameter or a component that needs percent-encoding); method cases = all; "
         "life cases = >= 1 successful re-key and >= 1 rejected open of the existing store. distinct = hash of the case"
     ),
@@ -26,12 +43,19 @@ CFG = {
         "the resulting accept/reject pattern and error kinds against the real primitives",
         "SQLite file semantics: a failed provisioning leaves a file without the config table; remove deletes the file; WAL files vanish on close",
         "random values (salt, nonces, uuid profile name) are masked in the compared output: salt -> <salt>, uuid-shaped profile name -> <random>",
+        "SQLite / sqlx facts the model takes as given (stated in Model/KeysDisk.lean, validated by every c08:cfg run): config rows come in NAME order; "
+        "NULL decodes as empty text / blob; a BLOB where a String is expected is a decode error; missing path or directory = CANTOPEN; a non-database "
+        "of >= 2 bytes = NOTADB / CORRUPT at connect; 0- and 1-byte files and foreign databases are databases without tables",
+        "max_connections default = available_parallelism clamped to 4..8: observed (SqliteStoreOptions::default()) and handed to the model as model_input.dmax",
         "HashMap iteration order: the theorem quantifies over every enumeration; each executed case fixes one (the order listed in the case)",
     ],
     "trusted_base": [
         "harness/src/c08.rs: the independent WF predicate, base58 codec and reference state (method, pass key, profiles, records, default profile) "
         "of the life-cycle oracle; the out-of-band row snapshot (rawsql.rs over the bundled SQLite) taken around every failed open",
         "lean/Driver/C08.lean: JSON protocol and the toy instance of the primitives",
+        "harness/src/c08x.rs: the edit catalogue with the expected verdict per entry (written from the documentation of the error kinds), the row / byte / "
+        "directory fingerprints taken around every attempt, the parser of the derived Debug of SqliteStoreOptions, the hand-written CBOR writer / reader and "
+        "ChaCha20-Poly1305 seal (chacha20poly1305 crate) used to put records under the right store key",
     ],
 }
 
@@ -65,6 +89,12 @@ def nontrivial(rec):
         return len(p.get("query") or []) >= 1 or esc or "%" in case.get("uri", "")
     if kind == "c08:method":
         return True
+    if kind == "c08:cfg":
+        return isinstance(out, dict) and isinstance(out.get("try"), dict)
+    if kind == "c08:opts":
+        return isinstance(out, dict) and isinstance(out.get("opts"), dict) and (case.get("garbage") or case.get("run") or "?" in case.get("uri", ""))
+    if kind == "c08:misc":
+        return isinstance(out, list) and len(out) >= 5
     if kind == "c08:life":
         ops = case.get("ops") or []
         outs = _outs(rec)
